@@ -159,6 +159,16 @@ def run_case(case) -> Result:
                     for how, g in got.items():
                         if not same(g, want):
                             bad("accessors-disagree", how.split("(")[0], f"{name} candle {i} of {n}: {how} = {g!r} but the candle holds {want!r}", subject)
+                if n == 0:
+                    # nothing has been appended yet: the accessors that answer at all say "no reading".
+                    # (Indicator.reading() indexes the empty list and raises IndexError: there is no candle position to
+                    # ask about, which is outside the statement's quantifier - observed, not judged.)
+                    labels.append("empty_object")
+                    for how, g in (("Hexital.reading()", hx.reading(name)), ("Indicator.prev_reading", ind.prev_reading(name)), ("Hexital.prev_reading", hx.prev_reading(name))):
+                        if g is not None:
+                            bad("accessors-disagree", how, f"{name}: {how} = {g!r} on an object without candles", subject)
+                    if hx.has_reading(name) is not False or (plain and ind.has_reading is not False):
+                        bad("has_reading-wrong", "has_reading", f"{name}: has_reading true without candles", subject)
                 if n:
                     latest = direct2[-1]
                     if latest is not None and (latest == 0 or latest is False):
